@@ -189,7 +189,8 @@ def run(tier, seed):
         "rule": "transition cover: one shortest call path per distinct (model state, last call), prefixes of longer paths dropped, "
                 "plus seeded random walks from tlc -simulate; every path is replayed on a generated base file (raw dict, compressed dict, "
                 "stream; junk prefix 0/7; cached File API / uncached Storage API); after each call every known reference is resolved and "
-                "typed-loaded, after each save the bytes are reloaded (cached and uncached) and the previous bytes must be a prefix; "
+                "typed-loaded, after each save the bytes are reloaded (cached and uncached) and the previous bytes must be a prefix; every number the caller "
+                "does not hold (catalog, containers, the cross-reference stream of each revision written) reads or is absent, in the open document and after reload; "
                 "non-trivial = the path contains a write followed by a save",
         "exhaustive": False,
         "cover_states_emitted": n_all, "paths_replayed": rep["cases"], "calls_replayed": rep["execs"],
